@@ -2,6 +2,8 @@ package main
 
 // per-property driver configuration
 var specs = map[string]*checkSpec{
+	"C01": {id: "C01", level: "model_checking",
+		rule: "BFS over histories of level/registry operations (SetLevel on any logger, package SetLevel, RegisterLevel), de-duplicated on the dump of all gating-relevant globals; in every reached state the full matrix logger level x severity x public entry point (x format) is probed against the reference admission rule; distinct = distinct (logger level, severity, debug mode, wrote) outcomes"},
 	"C19": {id: "C19", level: "model_checking",
 		rule: "BFS over histories of the ~57-op buffer alphabet from 5 roots, PrintCtx and bytes.Buffer driven in lock-step; a state is the implementation's full internal tuple (content, off, len, cap, lastRead); distinct = distinct canonical states reached"},
 }
